@@ -14,6 +14,7 @@ Record ecase := {
   k_simp : list (expr * expr);            (* x |-> simplify(x) for every expression the codec simplifies *)
   k_rewrite : bool;
   k_effs : list effect;
+  k_text : option string;                 (* the writer's ":effect" text verbatim (without the blank after ":effect") *)
   k_lexed : option sexp;                  (* the writer's ":effect" text through the real grammar; None = it raised *)
   k_parsed : option (list effect)         (* effects built by _add_effect from these tokens; None = it raised *)
 }.
@@ -44,7 +45,8 @@ Definition oeffects_eqb (a b : option (list effect)) : bool :=
 
 (* bit 0 (1): model print_effects differs from the writer's tokens
    bit 1 (2): model parse_effects of the writer's tokens differs from the reader's effects
-   bit 2 (4): every effect is in the fragment but the real round trip is not [norm_effs] *)
+   bit 2 (4): every effect is in the fragment but the real round trip is not [norm_effs]
+   bit 3 (8): model print_effects_text differs from the writer's text, character by character *)
 Definition ecode (c : ecase) : N :=
   let sp := simp_of (k_simp c) in
   let b0 := negb (osexp_eqb (print_effects sp (knaming c) (k_rewrite c) (k_effs c)) (k_lexed c)) in
@@ -53,9 +55,11 @@ Definition ecode (c : ecase) : N :=
             | None => false end in
   let b2 := forallb (pddl_eff_ok sp (kisb c)) (k_effs c)
             && negb (oeffects_eqb (Some (norm_effs (k_effs c))) (k_parsed c)) in
-  ((if b0 then 1 else 0) + (if b1 then 2 else 0) + (if b2 then 4 else 0))%N.
+  let b3 := negb (ostring_eqb (print_effects_text sp (knaming c) (k_rewrite c) (k_effs c)) (k_text c)) in
+  ((if b0 then 1 else 0) + (if b1 then 2 else 0) + (if b2 then 4 else 0) + (if b3 then 8 else 0))%N.
 
 Definition model_eprint (c : ecase) := print_effects (simp_of (k_simp c)) (knaming c) (k_rewrite c) (k_effs c).
+Definition model_etext (c : ecase) := print_effects_text (simp_of (k_simp c)) (knaming c) (k_rewrite c) (k_effs c).
 Definition model_eparse (c : ecase) :=
   match k_lexed c with Some s => parse_effects (simp_of (k_simp c)) (kenv c) (kisb c) s | None => None end.
 Definition in_fragment (c : ecase) : bool := forallb (pddl_eff_ok (simp_of (k_simp c)) (kisb c)) (k_effs c).
